@@ -187,58 +187,122 @@ def rule_lines_opaque(run, prog):
 ASSUME = None   # set per evaluation: the kind of the last statement
 
 
-def _test_value(test, last: str, assume_global: bool = True, fn=None) -> Optional[bool]:
-    """Truth of a test under the assumption: context.history[-1] == last, the current scope is the GlobalScope.
-    With *fn* (the function the test belongs to) local aliases such as `history = context.history`, `last = history[-1]`,
-    `scope = context.scope` are seen through (reaching definitions), and constants are folded (names of tuples / strings)."""
-    if fn is not None:
-        from ..dataflow import expand_aliases
-        test = _fold_constants(fn, expand_aliases(fn, test))
-    if isinstance(test, ast.UnaryOp) and isinstance(test.op, ast.Not):
-        v = _test_value(test.operand, last, assume_global)
-        return None if v is None else not v
-    if isinstance(test, ast.BoolOp):
-        vals = [_test_value(v, last, assume_global) for v in test.values]
-        if isinstance(test.op, ast.And):
-            if any(v is False for v in vals):
+_UNK = object()          # unknown value
+_SOME = object()         # a non-empty container / positive number of unknown content
+
+
+def _callfree(e) -> bool:
+    return not any(isinstance(x, (ast.Call, ast.Await, ast.Yield, ast.YieldFrom, ast.NamedExpr, ast.Lambda)) for x in ast.walk(e))
+
+
+def _pe(e, last: str, assume_global: bool):
+    """Value of *e* under the assumption: the statement history is not empty and its last element equals the string *last*;
+    (assume_global) the current scope is the GlobalScope.  A Python value, _SOME (truthy, content unknown) or _UNK."""
+    if isinstance(e, ast.Constant):
+        return e.value
+    t = text(e)
+    if t in ("context.history[-1]", "self.history[-1]", "context.history[len(context.history) - 1]"):
+        return last
+    if t in ("context.history", "self.history", "len(context.history)", "len(self.history)"):
+        return _SOME
+    if assume_global and t in ("context.scope.name", "self.scope.name", "type(context.scope).__name__"):
+        return "GlobalScope"
+    if isinstance(e, (ast.Tuple, ast.List, ast.Set)):
+        vals = [_pe(x, last, assume_global) for x in e.elts]
+        return _UNK if any(v is _UNK or v is _SOME for v in vals) else tuple(vals)
+    if isinstance(e, ast.UnaryOp) and isinstance(e.op, ast.Not):
+        v = _pe(e.operand, last, assume_global)
+        return _UNK if v is _UNK else (False if v is _SOME else not v)
+    if isinstance(e, ast.BoolOp):
+        vals = [_pe(v, last, assume_global) for v in e.values]
+        truth = [None if v is _UNK else True if v is _SOME else bool(v) for v in vals]
+        if isinstance(e.op, ast.And):
+            if any(x is False for x in truth):
                 return False
-            return True if all(v is True for v in vals) else None
-        if any(v is True for v in vals):
-            return True
-        return False if all(v is False for v in vals) else None
-    if isinstance(test, ast.Compare) and len(test.ops) == 1:
-        L, op, R = text(test.left), test.ops[0], test.comparators[0]
-        if L in ("context.history[-1]", "self.history[-1]"):
-            if isinstance(R, ast.Constant) and isinstance(R.value, str):
-                if isinstance(op, ast.Eq):
-                    return R.value == last
-                if isinstance(op, ast.NotEq):
-                    return R.value != last
-            if isinstance(R, (ast.List, ast.Tuple, ast.Set)) and all(isinstance(e, ast.Constant) for e in R.elts):
-                vals = [e.value for e in R.elts]
-                if isinstance(op, ast.In):
-                    return last in vals
-                if isinstance(op, ast.NotIn):
-                    return last not in vals
-        if not assume_global:
-            return None
-        if L in ("context.scope.name", "self.scope.name") and isinstance(R, ast.Constant):
-            if isinstance(op, ast.Eq):
-                return R.value == "GlobalScope"
-            if isinstance(op, ast.NotEq):
-                return R.value != "GlobalScope"
-        if L in ("context.scope.name", "self.scope.name") and isinstance(R, (ast.Tuple, ast.List)) and isinstance(op, (ast.In, ast.NotIn)):
-            inn = "GlobalScope" in [getattr(e, "value", None) for e in R.elts]
-            return inn if isinstance(op, ast.In) else not inn
-        if L in ("type(context.scope)",) and text(R) == "GlobalScope":
+            if all(x is True for x in truth):
+                return vals[-1] if vals[-1] is not _SOME else True
+            # known-true operands drop out; the value is that of the rest
+            return _UNK
+        if any(x is True for x in truth):
+            # the first truthy operand decides only if everything before it is known false
+            for v, x in zip(vals, truth):
+                if x is True:
+                    return v if v is not _SOME else True
+                if x is None:
+                    return _UNK
+        if all(x is False for x in truth):
+            return vals[-1]
+        return _UNK
+    if isinstance(e, ast.IfExp):
+        c = _pe(e.test, last, assume_global)
+        if c is _UNK:
+            a, b = _pe(e.body, last, assume_global), _pe(e.orelse, last, assume_global)
+            return a if (a is not _UNK and a is not _SOME and a == b) else _UNK
+        return _pe(e.body if (c is _SOME or c) else e.orelse, last, assume_global)
+    if isinstance(e, ast.Compare) and len(e.ops) == 1:
+        L, op, R = e.left, e.ops[0], e.comparators[0]
+        if assume_global and text(L) in ("type(context.scope)", "type(self.scope)", "context.scope.__class__") and text(R) == "GlobalScope":
             if isinstance(op, (ast.Is, ast.Eq)):
                 return True
             if isinstance(op, (ast.IsNot, ast.NotEq)):
                 return False
-    if assume_global and isinstance(test, ast.Call) and text(test.func) == "isinstance" and len(test.args) == 2 \
-            and text(test.args[0]) == "context.scope" and text(test.args[1]) == "GlobalScope":
+        a, b = _pe(L, last, assume_global), _pe(R, last, assume_global)
+        if a is _SOME and isinstance(b, int) and not isinstance(b, bool):
+            # len(history) against a constant: the history holds at least one element
+            if isinstance(op, ast.Gt) and b <= 0 or isinstance(op, ast.GtE) and b <= 1 or isinstance(op, ast.NotEq) and b == 0:
+                return True
+            if isinstance(op, ast.Eq) and b == 0 or isinstance(op, ast.Lt) and b <= 1 or isinstance(op, ast.LtE) and b <= 0:
+                return False
+            return _UNK
+        if a is _SOME and isinstance(op, (ast.Eq, ast.NotEq)) and b == ():
+            return isinstance(op, ast.NotEq)                 # history != []
+        if a is _UNK or b is _UNK or a is _SOME or b is _SOME:
+            return _UNK
+        try:
+            if isinstance(op, ast.Eq):
+                return a == b
+            if isinstance(op, ast.NotEq):
+                return a != b
+            if isinstance(op, ast.In):
+                return a in b
+            if isinstance(op, ast.NotIn):
+                return a not in b
+            if isinstance(op, ast.Is):
+                return a is b if (a is None or b is None) else _UNK
+            if isinstance(op, ast.IsNot):
+                return a is not b if (a is None or b is None) else _UNK
+        except TypeError:
+            return _UNK
+        return _UNK
+    if assume_global and isinstance(e, ast.Call) and text(e.func) == "isinstance" and len(e.args) == 2 \
+            and text(e.args[0]) in ("context.scope", "self.scope") and text(e.args[1]) == "GlobalScope":
         return True
-    return None
+    return _UNK
+
+
+def _test_value(test, last: str, assume_global: bool = True, fn=None) -> Optional[bool]:
+    """Truth of a test under the assumption: context.history[-1] == last, the current scope is the GlobalScope.
+    With *fn* (the function the test belongs to) local aliases such as `history = context.history`, `last = history[-1]`,
+    `previous = history[-1] if history else None`, `scope = context.scope` are seen through (reaching definitions), and
+    constants are folded (names of tuples / strings).  None = not decided."""
+    if fn is not None:
+        from ..dataflow import expand_aliases
+        test = _fold_constants(fn, expand_aliases(fn, test, accept=_callfree_or_len))
+    v = _pe(test, last, assume_global)
+    if v is _UNK:
+        return None
+    return True if v is _SOME else bool(v)
+
+
+def _callfree_or_len(e) -> bool:
+    """Side-effect-free expressions a local may stand for: no calls except len(<path>)."""
+    for x in ast.walk(e):
+        if isinstance(x, ast.Call) and not (isinstance(x.func, ast.Name) and x.func.id == "len" and len(x.args) == 1):
+            return False
+        if isinstance(x, (ast.Await, ast.Yield, ast.YieldFrom, ast.NamedExpr, ast.Lambda, ast.ListComp, ast.GeneratorExp,
+                          ast.SetComp, ast.DictComp)):
+            return False
+    return True
 
 
 def _fold_constants(fn, test):
